@@ -12,8 +12,8 @@ struct StepGraphSpec {
 };
 
 inline const char *stepFamilyName(int f) {
-    static const char *n[] = {"layered", "grid", "hypercube", "complete", "complete_bipartite", "ladder", "ring", "zero_weight_clique", "gnp", "diamond_chain", "skip_chain", "convex_dag"};
-    return n[f % 12];
+    static const char *n[] = {"layered", "grid", "hypercube", "complete", "complete_bipartite", "ladder", "ring", "zero_weight_clique", "gnp", "diamond_chain", "skip_chain", "convex_dag", "plain_ladder", "path_with_duplicate_edges"};
+    return n[f % 14];
 }
 
 // edge list of a family member; vertices 0..V-1
@@ -21,7 +21,7 @@ inline unsigned buildFamily(const StepGraphSpec &s, std::vector<std::pair<unsign
     es.clear();
     sim::Rng r(s.gseed);
     unsigned V = 0;
-    switch (s.family % 12) {
+    switch (s.family % 14) {
     case 0: { // layered: source, d layers of width w fully connected layer to layer, sink  (w^d shortest paths)
         int w = 2 + s.p1 % 4, d = 2 + s.p2 % 39;
         while ((long)w * d > 160) --d;
@@ -106,6 +106,22 @@ inline unsigned buildFamily(const StepGraphSpec &s, std::vector<std::pair<unsign
             for (unsigned j = i + 1; j < V; ++j) es.emplace_back(i, j);
         break;
     }
+    case 12: { // plain ladder: two rails and a rung per level (non-bipartite only through the rungs: long single-predecessor chains)
+        unsigned L = 2 + (unsigned)(s.p1 % 60);
+        V = 2 * L;
+        for (unsigned i = 0; i < L; ++i) {
+            es.emplace_back(2 * i, 2 * i + 1);
+            if (i + 1 < L) { es.emplace_back(2 * i, 2 * i + 2); es.emplace_back(2 * i + 1, 2 * i + 3); }
+        }
+        break;
+    }
+    case 13: { // path whose edges are inserted several times with force=true (each copy counts in E)
+        V = 3 + (unsigned)(s.p1 % 40);
+        unsigned copies = 2 + (unsigned)(s.p2 % 3);
+        for (unsigned i = 0; i + 1 < V; ++i)
+            for (unsigned c = 0; c < copies; ++c) es.emplace_back(i, i + 1);
+        break;
+    }
     default: { // chain of diamonds: 2^d shortest paths with 3d+1 vertices
         int d = 1 + s.p1 % 40;
         V = (unsigned)(3 * d + 1);
@@ -124,8 +140,8 @@ inline unsigned buildFamily(const StepGraphSpec &s, std::vector<std::pair<unsign
 }
 
 inline double stepWeight(unsigned a, unsigned b, uint64_t seed, int family) {
-    if (family % 12 == 7) return 0.0;
-    if (family % 12 == 10 || family % 12 == 11) { // convex in the span: every shortcut is worse than the hops it skips
+    if (family % 14 == 7) return 0.0;
+    if (family % 14 == 10 || family % 14 == 11) { // convex in the span: every shortcut is worse than the hops it skips
         double d = a < b ? (double)(b - a) : (double)(a - b);
         return d * d;
     }
@@ -150,7 +166,7 @@ inline void runStepPlan(const sim::Plan &plan, sim::RunResult &res, Env &env) {
         const sim::Op &op = plan.ops[i];
         if (op.k != "steps") continue;
         StepGraphSpec s;
-        s.family = (int)modn(op.x, 12);
+        s.family = (int)modn(op.x, 14);
         s.p1 = (int)modn(op.a, 1 << 20);
         s.p2 = (int)modn(op.b, 1 << 20);
         const int algo = (int)modn(op.y, 3);
@@ -159,6 +175,7 @@ inline void runStepPlan(const sim::Plan &plan, sim::RunResult &res, Env &env) {
         s.gseed = (uint64_t)(op.y >> 12) * 0x9e3779b97f4a7c15ULL + 7;
         std::vector<std::pair<unsigned, unsigned>> es;
         const unsigned V = buildFamily(s, es);
+        const bool dupForce = s.family == 13;
         const unsigned src = (op.y >> 4) & 1 ? modn(op.y >> 5, V) : 0; // source 0 (the "many paths" source) or a seeded vertex
         static const char *algName[3] = {"findVertexPredecessors", "findAllVertexPredecessors", "findGeodesicsDijkstra"};
         long clock = 0, bound = 0;
@@ -169,14 +186,14 @@ inline void runStepPlan(const sim::Plan &plan, sim::RunResult &res, Env &env) {
             if (algo == 2) {
                 if (s.directed) {
                     BaseGraph::DirectedWeightedGraph g(V);
-                    for (auto &e : es) g.addEdge(e.first, e.second, stepWeight(e.first, e.second, s.gseed, s.family));
+                    for (auto &e : es) g.addEdge(e.first, e.second, stepWeight(e.first, e.second, s.gseed, s.family), dupForce);
                     bound = (long)V + totalListLength(g) + 1;
                     Counting<BaseGraph::DirectedWeightedGraph> cg(g, &clock, bound);
                     auto r = alg::findGeodesicsDijkstra(cg, src);
                     for (double d : r.first) dg.dbl(d);
                 } else {
                     BaseGraph::UndirectedWeightedGraph g(V);
-                    for (auto &e : es) g.addEdge(e.first, e.second, stepWeight(std::min(e.first, e.second), std::max(e.first, e.second), s.gseed, s.family));
+                    for (auto &e : es) g.addEdge(e.first, e.second, stepWeight(std::min(e.first, e.second), std::max(e.first, e.second), s.gseed, s.family), dupForce);
                     bound = (long)V + totalListLength(g) + 1;
                     Counting<BaseGraph::UndirectedWeightedGraph> cg(g, &clock, bound);
                     auto r = alg::findGeodesicsDijkstra(cg, src);
@@ -184,14 +201,14 @@ inline void runStepPlan(const sim::Plan &plan, sim::RunResult &res, Env &env) {
                 }
             } else if (s.directed) {
                 BaseGraph::DirectedGraph g(V);
-                for (auto &e : es) g.addEdge(e.first, e.second);
+                for (auto &e : es) g.addEdge(e.first, e.second, dupForce);
                 bound = algo == 0 ? (long)V : (long)V + totalListLength(g);
                 Counting<BaseGraph::DirectedGraph> cg(g, &clock, bound);
                 if (algo == 0) { auto r = alg::findVertexPredecessors(cg, src); for (auto d : r.first) dg.u64(d); }
                 else { auto r = alg::findAllVertexPredecessors(cg, src); for (auto d : r.first) dg.u64(d); }
             } else {
                 BaseGraph::UndirectedGraph g(V);
-                for (auto &e : es) g.addEdge(e.first, e.second);
+                for (auto &e : es) g.addEdge(e.first, e.second, dupForce);
                 bound = algo == 0 ? (long)V : (long)V + totalListLength(g);
                 Counting<BaseGraph::UndirectedGraph> cg(g, &clock, bound);
                 if (algo == 0) { auto r = alg::findVertexPredecessors(cg, src); for (auto d : r.first) dg.u64(d); }
